@@ -159,3 +159,18 @@ contract(f"{SLOPE}::_slope#frame", "C12,C17", cases=["-"], inputs=_slope_frame_i
          ensures=[("one-slope-per-row", lambda A, r: isinstance(r, SArr) and r.ndim == 1 and Eq(r.len, A.y.shape[0]))],
          notes=["frame only: the window handed to _slope by the interval forests is a VIEW of the caller's array; an in-place operator "
                 "on it would be a write to the caller's data. The slope VALUE is an assumed contract at call sites (C17)"])
+
+
+def _gr_inputs(B, case):
+    I = B.I
+    ok, cls = I.mod_global(I.src.module("sktime.transformations.series.impute"), "Imputer")
+    obj = I.instantiate(cls, [], {"method": "random", "random_state": B.int("random_state", 0) if case == "seeded" else None})
+    obj.attrs["_is_fitted"] = True
+    return {"self": obj, "Z": sym_series(B)}
+
+
+contract(f"{IMP}::Imputer._get_random", "C12", cases=["seeded", "unseeded"], inputs=_gr_inputs,
+         may_raise=[("ValueError", lambda A: True)],
+         frame=lambda A: [A.self, A.Z],
+         notes=["frame only: drawing a replacement value must not leave state on the estimator (a generator kept between calls makes "
+                "repeated transforms differ) and must not touch the series; the drawn values are not modelled"])
